@@ -711,35 +711,43 @@ func checkC09(c *Check, p *Program) {
 		firstLoop = lps[0].Header
 	}
 	want := map[string]bool{"close inbound": false, "close ack": false, "wait.Done": false}
-	instrsOf(t.serve, func(in ssa.Instruction) {
-		d, ok := in.(*ssa.Defer)
-		if !ok {
-			return
-		}
-		key := ""
-		if builtinName(d) == "close" {
-			switch chanField(d.Common().Args[0]) {
-			case a.inbound:
-				key = "close inbound"
-			case a.ack:
-				key = "close ack"
+	h8fns := []*ssa.Function{t.serve}
+	h8fns = append(h8fns, t.serve.AnonFuncs...)
+	for _, hf := range h8fns {
+		instrsOf(hf, func(in ssa.Instruction) {
+			ci, ok := in.(ssa.CallInstruction)
+			if !ok {
+				return
 			}
-		} else if o := calleeObj(d); funcIs(o, "sync", "WaitGroup", "Done") && fieldOfAddr(callRecv(d)) == a.wait {
-			key = "wait.Done"
-		}
-		if key == "" {
-			return
-		}
-		okd := firstLoop != nil && d.Block().Dominates(firstLoop) && !inAnyLoop(d.Block())
-		for _, r := range returnsOf(t.serve) {
-			if !d.Block().Dominates(r.Block()) {
-				okd = false
+			key := ""
+			if builtinName(ci) == "close" {
+				switch chanField(ci.Common().Args[0]) {
+				case a.inbound:
+					key = "close inbound"
+				case a.ack:
+					key = "close ack"
+				}
+			} else if o := calleeObj(ci); funcIs(o, "sync", "WaitGroup", "Done") && fieldOfAddr(callRecv(ci)) == a.wait {
+				key = "wait.Done"
 			}
-		}
-		if okd {
-			want[key] = true
-		}
-	})
+			if key == "" {
+				return
+			}
+			d := deferredIn(t.serve, in)
+			if d == nil {
+				return
+			}
+			okd := firstLoop != nil && d.Block().Dominates(firstLoop) && !inAnyLoop(d.Block())
+			for _, r := range returnsOf(t.serve) {
+				if !d.Block().Dominates(r.Block()) {
+					okd = false
+				}
+			}
+			if okd {
+				want[key] = true
+			}
+		})
+	}
 	for k, v := range want {
 		c.Decide(v, "C09.H8", sn+" defers "+k, p.Pos(t.serve.Pos()), "unconditional defer before the serve loop, dominating every return", "serve does not unconditionally defer "+k+": termination leaves Inbound open, pending Sends waiting, or Close blocked")
 	}
